@@ -33,6 +33,8 @@ def defaults_of(ctx, v):
     d = ctx.repo.get("bellows.ezsp.config", "DEFAULT_CONFIG")
     if not isinstance(d, dict) or v not in d:
         raise AnalysisError(f"DEFAULT_CONFIG[{v}] unresolved")
+    if not isinstance(d[v], (list, tuple)) or not all(hasattr(r, "ctor_name") for r in d[v]):
+        raise AnalysisError(f"DEFAULT_CONFIG[{v}] did not resolve to a list of records: {d[v]!r:.120}")
     return d[v]
 
 
